@@ -44,11 +44,17 @@ def extensions(draw, name=None, max_defs=4, min_ops=0, min_types=0):
     return {
         "name": nm,
         "version": draw(st.tuples(st.integers(0, 3), st.integers(0, 20), st.integers(0, 5)).map(list)),
+        # a full semantic version now and then: pre-release and / or build identifiers
+        "vsuffix": draw(st.sampled_from(["", "", "", "-rc.1", "+build.7", "-beta.2+exp.sha.5114f85"])),
         "reqs": draw(st.lists(EXTN, max_size=3, unique=True)),
         "types": types,
         "ops": [draw(opdef(on)) for on in onames],
         "values": [{"name": vn, "v": draw(asts.values(1))} for vn in vnames],
     }
+
+
+def version_str(a) -> str:
+    return ".".join(map(str, a["version"])) + a.get("vsuffix", "")
 
 
 def mk_extension(a, probe=False):
@@ -58,7 +64,7 @@ def mk_extension(a, probe=False):
     import hugr.tys as tys
     from semver import Version
 
-    e = ext.Extension(a["name"], Version(*a["version"]), set(a["reqs"]))
+    e = ext.Extension(a["name"], Version.parse(version_str(a)), set(a["reqs"]))
     for td in a["types"]:
         b = td["bound"]
         bd = ext.ExplicitBound(bound(b["v"])) if b["b"] == "E" else ext.FromParamsBound(list(b["idx"]))
@@ -85,7 +91,7 @@ def enc_extension(a):
     """Reference document for an extension AST; runtime_reqs of op signatures
     are returned as *sets* under the key '__reqs' for order-insensitive comparison."""
     doc = {
-        "version": ".".join(map(str, a["version"])),
+        "version": version_str(a),
         "name": a["name"],
         "runtime_reqs": sorted(set(a["reqs"])),
         "types": {},
